@@ -15,7 +15,7 @@
   All arguments are s-expressions whose tokens are separated by single blanks:
     type   int float bool str None Unknown | ( list T ) ( dict K V ) ( tuple T* ) ( union T* ) ( cls name T* ) ( tvar name )
     env    ( ( name T ) … )
-    ct     ( ( Class Base|- ( member field|classVar|method|property|classMethod T ) … ) … )
+    ct     ( ( Class Base|-|( Base… ) ( member field|classVar|method|property|classMethod T ) … ) … )       (bases in the written order)
     expr   ( int 12 ) ( float 1.5 ) ( str <hex> ) true false none empty ( var x ) ( factor +|-|~ e ) ( not e )
            ( bin e op e … ) ( cmp e op e … ) ( and e… ) ( or e… ) ( tern a c b ) ( list e… ) ( dict k v … ) ( tuple e… )
            ( index r k ) ( slice r lo hi ) ( group e ) ( call r m e… ) ( fcall f e… )
@@ -88,11 +88,14 @@ def toKind : String → Option MKind
 
 def toClassTable : Sx → Option ClassTable
   | .node cs => allSome (cs.map fun c => match c with
-    | .node (.atom n :: .atom b :: ms) => do
+    | .node (.atom n :: b :: ms) => do
       let members ← allSome (ms.map fun m => match m with
         | .node [.atom a, .atom k, t] => do pure (⟨s2l a, ← toKind k, ← toTy t⟩ : Member)
         | _ => none)
-      pure (⟨s2l n, if b == "-" then none else some (s2l b), members⟩ : ClassDecl)
+      let bases ← match b with
+        | .atom x => some (if x == "-" then [] else [s2l x])
+        | .node bs => allSome (bs.map fun y => match y with | .atom x => some (s2l x) | _ => none)
+      pure (⟨s2l n, bases, members⟩ : ClassDecl)
     | _ => none)
   | _ => none
 
